@@ -52,13 +52,17 @@ func buildWorker(scratch string) string {
 }
 
 func runWorker(bin string, sp *props.Spec, timeout time.Duration) (*props.Result, int, string) {
+	return runWorkerEnv(bin, sp, timeout, "GOMAXPROCS=2")
+}
+
+func runWorkerEnv(bin string, sp *props.Spec, timeout time.Duration, extraEnv string) (*props.Result, int, string) {
 	specPath := filepath.Join(sp.OutDir, fmt.Sprintf("spec-%d.json", sp.ID))
 	b, _ := json.Marshal(sp)
 	_ = os.WriteFile(specPath, b, 0644)
 	resPath := filepath.Join(sp.OutDir, fmt.Sprintf("result-%d.json", sp.ID))
 	_ = os.Remove(resPath)
 	cmd := exec.Command(bin, "-test.run", "^TestWorker$", "-test.timeout", "0", "-test.cpu", "1")
-	cmd.Env = append(os.Environ(), "VERIF_SPEC="+specPath, "VERIF_DIR="+verifDir, "GOMAXPROCS=2")
+	cmd.Env = append(os.Environ(), "VERIF_SPEC="+specPath, "VERIF_DIR="+verifDir, extraEnv)
 	cmd.Dir = sp.OutDir
 	var buf strings.Builder
 	cmd.Stdout = &buf
@@ -173,6 +177,72 @@ func main() {
 			exit(1)
 		}
 		fmt.Println("replay: no violation")
+		exit(0)
+	}
+
+	if prop == "selftest-det" {
+		// determinism self-test: the same (seed, run) executed in separate
+		// processes at different GOMAXPROCS / worker counts must produce
+		// identical digests.
+		target := fs.Arg(0)
+		if props.Lookup(target) == nil {
+			die(2, "usage: vcheck selftest-det --max-runs N <property>")
+		}
+		n := *maxRuns
+		if n == 0 {
+			n = 40
+		}
+		type cfg struct{ jobs, procs int }
+		var base map[string]uint64
+		bad := 0
+		for pass, cf := range []cfg{{4, 1}, {8, 4}, {16, 16}, {2, 2}} {
+			got := map[string]uint64{}
+			total := n * 4
+			ch := make(chan *props.Result, cf.jobs)
+			for i := 0; i < cf.jobs; i++ {
+				sp := &props.Spec{Mode: "explore", Prop: target, Tier: *tier, Seed: uint64(*seedF), First: uint64(i), Stride: uint64(cf.jobs),
+					DeadlineMS: time.Now().Add(30 * time.Minute).UnixMilli(), MaxRuns: (total + cf.jobs - 1) / cf.jobs, OutDir: scratch, ID: pass*100 + i, StuckS: 60, MaxViol: 1000000}
+				go func() {
+					os.Setenv("VERIF_DIGEST", "1")
+					r, _, _ := runWorkerEnv(bin, sp, 40*time.Minute, fmt.Sprintf("GOMAXPROCS=%d", cf.procs))
+					ch <- r
+				}()
+			}
+			for i := 0; i < cf.jobs; i++ {
+				r := <-ch
+				if r == nil {
+					die(2, "HARNESS-ERROR determinism worker died")
+				}
+				for k, v := range r.Digests {
+					got[k] = v
+				}
+			}
+			if base == nil {
+				base = got
+				fmt.Printf("pass %d: %d runs (jobs=%d GOMAXPROCS=%d)\n", pass, len(got), cf.jobs, cf.procs)
+				continue
+			}
+			diff := 0
+			cmp := 0
+			for k, v := range got {
+				if b, ok := base[k]; ok {
+					cmp++
+					if b != v {
+						diff++
+						if diff <= 5 {
+							fmt.Printf("  run %s differs: %x vs %x\n", k, b, v)
+						}
+					}
+				}
+			}
+			fmt.Printf("pass %d: %d runs compared (jobs=%d GOMAXPROCS=%d): %d differ\n", pass, cmp, cf.jobs, cf.procs, diff)
+			bad += diff
+		}
+		if bad > 0 {
+			fmt.Println("DETERMINISM-FAILED")
+			exit(2)
+		}
+		fmt.Println("determinism ok")
 		exit(0)
 	}
 
